@@ -81,12 +81,17 @@ def render(spec):
             out.append(f"    {it['name']}: reg32.Array[{_type_of(spec, it['elem'])}, 0x{it['off']:x}:0x{end:x}:{it['step']}]")
         elif it["what"] == "file":
             out.append(f"    {it['name']}: F_{it['name']}[0x{it['off']:x}]")
+        elif it["what"] == "mem":
+            out.append(f"    {it['name']}: reg32.Memory[0x{it['off']:x}:0x{it['off'] + 4 * it['words']:x}]")
         else:
             out.append(f"    {it['name']}: {_type_of(spec, it)}[0x{it['off']:x}]")
     out.append("")
     insts = flatten(spec)
     hw = spec["entry"] == "base"
     cfg, conc, seq = [], [], []
+    for it in spec["items"]:
+        if it["what"] == "mem" and it.get("initial") is not None:
+            cfg.append(f"self.{it['name']}._config_(initial={'Full' if it['initial'] else 'Null'})")
     for inst in insts:
         p, k, what = inst["path"], inst["idx"], inst["what"]
         if what in ("word", "uword", "memword", "memuword"):
